@@ -322,7 +322,26 @@ func (m TypedMapSchema[KeyType, ValueType]) UnserializeType(data any) (result ma
 	if err != nil {
 		return result, err
 	}
-	return unserialized.(map[KeyType]ValueType), nil
+	if typed, ok := unserialized.(map[KeyType]ValueType); ok {
+		return typed, nil
+	}
+	// The map is built from the keys' and values' reflected types, which are not KeyType / ValueType themselves for
+	// values such as TypedObjectSchema.Any(): hand the entries over one by one.
+	v := reflect.ValueOf(unserialized)
+	result = make(map[KeyType]ValueType, v.Len())
+	iter := v.MapRange()
+	for iter.Next() {
+		key, keyOk := iter.Key().Interface().(KeyType)
+		value, valueOk := iter.Value().Interface().(ValueType)
+		if !keyOk || !valueOk {
+			return nil, &ConstraintError{
+				Message: fmt.Sprintf("Unexpected entry type %T: %T in unserialized map",
+					iter.Key().Interface(), iter.Value().Interface()),
+			}
+		}
+		result[key] = value
+	}
+	return result, nil
 }
 
 func (m TypedMapSchema[KeyType, ValueType]) ValidateType(data map[KeyType]ValueType) error {
